@@ -342,7 +342,7 @@ def api(rng, case, idx):
                     M.bucket(f'C14/api/cross_numerator/{entry}')
                     good_ = [o for l_, o in outs if not isinstance(o, Exception)]
                     # a parsed concentration is kept to 1e-10 in the base units of its own spelling: relative quantum q/value
-                    relq = 4 * 2 * max(q / max(R.parse_concentration(l_)[0], 1e-300) for l_, o in outs)
+                    relq = 4 * 2 * max(R.conc_quantum(R.parse_concentration(l_)[0]) / max(R.parse_concentration(l_)[0], 1e-300) for l_, o in outs)
                     differ = any(abs(g.get(k, 0.0) - good_[0][k]) > (1e-6 + relq) * abs(good_[0][k]) + 1e-6 for g in good_[1:] for k in good_[0])
                     if (0 < len(good_) < len(outs)) or differ:
                         M.violate(['C14'], 'PARSE', f'C14:same_ratio_in_moles_or_grams_differs:{entry}',
